@@ -16,7 +16,11 @@ package main
 
 import (
 	"bytes"
+	"fmt"
+	"runtime"
 	"strings"
+	"sync"
+	"sync/atomic"
 	"time"
 
 	"github.com/IrineSistiana/mosproxy/internal/dnsmsg"
@@ -135,5 +139,67 @@ func runReadable(id string, parts []string) string {
 			return "OK " + hx.Hex(c)
 		}
 		return "HARNESS-ERROR bad op"
+	})
+}
+
+// matchconc: <id> rules=<hex,..> probes=<hex,..> g=<goroutines> ms=<duration>
+//   -> seq=<one 1/0 per probe> n=<concurrent Match calls> bad=<calls whose result differs from the sequential one>
+// The matcher is built once; its sequential answers are the reference; then g goroutines call Match on the probes
+// (each on a private copy of the name) for ms milliseconds on TWO processors (more goroutines than processors: the
+// scheduler preempts a Match in the middle).  Match must be a pure function of the name whatever runs beside it.
+func init() { register("matchconc", 1, runMatchConc) }
+
+func runMatchConc(id string, parts []string) string {
+	f := hx.Fields(parts)
+	probes, err := hexList(f["probes"])
+	if err != nil || len(probes) == 0 {
+		return "HARNESS-ERROR bad probes"
+	}
+	rules, err := hexList(f["rules"])
+	if err != nil {
+		return "HARNESS-ERROR bad hex"
+	}
+	g := hx.MustAtoi(f["g"])
+	dur := time.Duration(hx.MustAtoi(f["ms"])) * time.Millisecond
+	return guard(id, 30*time.Second, func() string {
+		m := domainmatcher.NewMixMatcher()
+		for _, r := range rules {
+			m.Add(append([]byte(nil), r...))
+		}
+		want := make([]bool, len(probes))
+		var sb strings.Builder
+		for i, p := range probes {
+			want[i] = m.Match(append([]byte(nil), p...))
+			if want[i] {
+				sb.WriteByte('1')
+			} else {
+				sb.WriteByte('0')
+			}
+		}
+		old := runtime.GOMAXPROCS(2)
+		defer runtime.GOMAXPROCS(old)
+		var calls, bad atomic.Int64
+		var wg sync.WaitGroup
+		stop := time.Now().Add(dur)
+		for k := 0; k < g; k++ {
+			wg.Add(1)
+			k := k
+			go func() {
+				defer wg.Done()
+				buf := make([]byte, 0, 300)
+				for i := k; time.Now().Before(stop); i++ {
+					for j := range probes {
+						idx := (i + j*7 + k) % len(probes)
+						buf = append(buf[:0], probes[idx]...)
+						if m.Match(buf) != want[idx] {
+							bad.Add(1)
+						}
+						calls.Add(1)
+					}
+				}
+			}()
+		}
+		wg.Wait()
+		return fmt.Sprintf("seq=%s n=%d bad=%d", sb.String(), calls.Load(), bad.Load())
 	})
 }
